@@ -61,6 +61,7 @@ def timeout_case(case):
     def body(test, plug):
       inv = len([e for e in log if e[0] == 'put'])
       log.append(('put', s.now))
+      s.events.append(('put-start', s.k, s.me().idx))
       if kind == 'returns':
         s.sleep(d)
         test.measurements.pm = 5
@@ -68,6 +69,14 @@ def timeout_case(case):
         return None
       if kind == 'killable':
         s.sleep(d)
+        return None
+      if kind == 'notifying':
+        # a body that keeps publishing state updates and then never returns; the kill can reach it anywhere, also inside
+        # the framework's own critical sections
+        for _ in range(3):
+          test.notify_update()
+          test.logger.info('working')
+        s.sleep(1e7)
         return None
       if kind == 'rot-recovers':
         # repeat_on_timeout: the first invocation never returns (it is abandoned at its deadline), the second is quick
@@ -239,6 +248,9 @@ def timeout_grid():
             yield {'t': t, 'd': d if d == 'inf' else round(d, 4), 'kind': kind, 'pos': pos, 'rot': rot}
     for pos in ('alone', 'main', 'setup', 'teardown'):
       yield {'t': t, 'd': 'inf', 'kind': 'rot-recovers', 'pos': pos, 'rot': False}
+    if t in (0.5, 3.0):
+      for pos in ('alone', 'main'):
+        yield {'t': t, 'd': 'inf', 'kind': 'notifying', 'pos': pos, 'rot': False}
     for frac in (0.3, 0.4, 0.6, 0.9):
       for pos in ('alone', 'main', 'setup', 'teardown'):
         yield {'t': t, 'd': round(tt * frac, 4), 'kind': 'repeats', 'pos': pos, 'rot': False}
@@ -426,6 +438,20 @@ def run_job(job, acct):
           c2 = dict(case, plan={str(k): 0})
           r2, _ = check_timeout(c2)
           record(c2, r2)
+      # the body is descheduled past its deadline at every line of the state-update path it executes (incl. inside the
+      # notification lock): the kill reaches it there
+      if case['kind'] == 'notifying':
+        body_tidx = [e[2] for e in s0.events if e[0] == 'put-start']
+        if body_tidx:
+          bt = body_tidx[0]
+          tt_ = case['t']
+          pts = [k for k, tidx, tag in s0.tags if tidx == bt and tag and (
+              (tag[0] == 'line' and tag[1] in ('notify_update', 'asdict_with_event')) or tag[0] in ('lock.acquire', 'lock.release'))]
+          for k in pts:
+            c2 = dict(case, plan={str(k): ['stall', tt_ + 10.0]})
+            r2, _ = check_timeout(c2)
+            r2.classes.append('stall-in-update')
+            record(c2, r2)
       # stalls (the OS deschedules a thread for seconds between two lines): in the phase thread after the body has
       # returned, and in the executor thread; only for bodies that finish before the deadline
       d = float('inf') if case['d'] == 'inf' else case['d']
